@@ -369,6 +369,10 @@ func c14EmptyIfaceStores(c *core.Ctx) map[*types.Var][]types.Type {
 // c14Globals: every package-level variable of the repository read in the run set has init-only writers, and
 // objects held in package-level variables are used only through synchronised operations.
 func c14Globals(c *core.Ctx, e *entrySets, runFns []*ssa.Function, rule string) {
+	c14GlobalsN(c, e, runFns, rule, 10)
+}
+
+func c14GlobalsN(c *core.Ctx, e *entrySets, runFns []*ssa.Function, rule string, floor int) {
 	cg := c.CallGraph()
 	// writers of each repo global, program wide (repo functions)
 	writers := map[*ssa.Global][]*ssa.Function{}
@@ -423,6 +427,7 @@ func c14Globals(c *core.Ctx, e *entrySets, runFns []*ssa.Function, rule string) 
 					case *ssa.UnOp:
 						// plain read of the variable; the loaded object's uses:
 						c14ObjectUses(c, f, x, g, rule)
+						c14AggregateReadOnly(c, f, x, g, rule)
 					case ssa.CallInstruction:
 						o := core.CalleeObj(x)
 						if o != nil && o.Pkg() != nil && (o.Pkg().Path() == "sync/atomic" || (o.Pkg().Path() == "sync" && strings.HasPrefix(core.FuncName(o), "Pool."))) {
@@ -455,7 +460,7 @@ func c14Globals(c *core.Ctx, e *entrySets, runFns []*ssa.Function, rule string) 
 			}
 		}
 	}
-	c.Floor(rule, 10, "package-level variables used on the run path")
+	c.Floor(rule, floor, "package-level variables used on the run path")
 }
 
 // c14ObjectUses: v = load of global g. If the loaded value is a pointer/struct with interior state (caches),
